@@ -167,8 +167,94 @@ def exe_render(args, scratch):
     return SEP1.join([kind, tlist(cmd)] + tail)
 
 
+# ------------------------------------------------------------------ build line, templates, tests
+def build_line(args):
+    rule_name = args[0]
+    outs, r1 = split_mark(list(args[1:]))
+    imp, r2 = split_mark(r1)
+    ins, r3 = split_mark(r2)
+    deps, ords = split_mark(r3)
+    rule = NB.NinjaRule(rule_name, ['cc'], [], 'desc')
+    elem = NB.NinjaBuildElement(set(), list(outs), rule_name, list(ins), implicit_outs=list(imp))
+    elem.rule = rule
+    elem.add_dep(list(deps))
+    elem.add_orderdep(list(ords))
+    buf = io.StringIO()
+    elem.write(buf)
+    v = buf.getvalue()
+    assert v.endswith('\n\n')
+    return v[:-1]
+
+
+def enc_entry(k, v):
+    return SEP2.join([k, 'S', v]) if isinstance(v, str) else SEP2.join([k, 'L'] + list(v))
+
+
+def dec_dict(entries):
+    d = {}
+    for e in entries:
+        parts = e.split(SEP2)
+        if len(parts) >= 3 and parts[1] == 'S':
+            d[parts[0]] = parts[2]
+        elif len(parts) >= 2 and parts[1] == 'L':
+            d[parts[0]] = parts[2:]
+        else:
+            d[parts[0]] = ''
+    return d
+
+
+def eval_custom(args, scratch):
+    import types
+    sr, br, cs = args[:3]
+    cmd, r1 = split_mark(list(args[3:]))
+    _d, r2 = split_mark(r1)
+    inputs, r3 = split_mark(r2)
+    outs, r4 = split_mark(r3)
+    subdir = r4[0] if r4 else ''
+    b = Backend.__new__(Backend)
+    b.environment = backend(scratch).environment
+    b.build_to_src = sr
+    b.get_custom_target_output_dir = lambda t: ''
+    b.get_custom_target_sources = lambda t: list(inputs)
+    assert br == '.' and cs == os.path.join(sr, subdir)
+    tgt = types.SimpleNamespace(command=list(cmd), get_outputs=lambda: list(outs), get_subdir=lambda: subdir,
+                                depfile=None, absolute_paths=False, name='t')
+    _i, _o, res = b.eval_custom_target_command(tgt)
+    return res
+
+
+def test_cmd(args):
+    from mesonbuild import mtest
+    from mesonbuild.backend.backends import TestSerialisation, TestProtocol
+    w, r1 = split_mark(list(args))
+    f, r2 = split_mark(r1)
+    a, t = split_mark(r2)
+    ts = TestSerialisation('n', 'p', ['p'], list(f), False, None, False, True, list(a), EnvironmentVariables(), False, 0, 30, None,
+                           [], TestProtocol.EXITCODE, 0, False, False, [], '1.0', False, f[0] if f else '')
+    opts = argparse.Namespace(gdb=False, wrapper=list(w), test_args=list(t), no_rebuild=False, benchmark=False, interactive=False,
+                              timeout_multiplier=1, num_processes=1, verbose=False, quiet=False, repeat=1)
+    import asyncio, types
+    r = mtest.SingleTestRunner(ts, {}, 'n', opts)
+    got = []
+
+    async def fake_run_cmd(harness, cmd):          # the process start is replaced, SingleTestRunner.run() itself is real
+        got.append(list(cmd))
+    r._run_cmd = fake_run_cmd
+    asyncio.run(r.run(types.SimpleNamespace(log_start_test=lambda *a, **k: None)))
+    return got[0]
+
+
 # ------------------------------------------------------------------ cases
 def ev(fn, args, scratch):
+    if fn == 'bline':
+        return 'O' + build_line(args)
+    if fn == 'subst':
+        c, d = split_mark(list(args))
+        return 'O' + tlist(mesonlib.substitute_values(c, dec_dict(d)))
+    if fn == 'evalcmd':
+        return 'O' + tlist(eval_custom(args, scratch))
+    if fn == 'testcmd':
+        return tlist(test_cmd(args))
     if fn == 'tables':
         return tables()
     if fn == 'shq':
@@ -282,6 +368,9 @@ def main():
     try:
         if 'cases' in req:
             out['results'] = [safe(fn, args, scratch) for fn, args in req['cases']]
+        if 'tdicts' in req:
+            out['tdicts'] = [[enc_entry(k, v) for k, v in mesonlib.get_filenames_templates_dict(list(i), list(o)).items()]
+                             for i, o in req['tdicts']]
         if 'oracle_exe' in req:
             out['oracle_exe'] = []
             for a in req['oracle_exe']:
